@@ -1,6 +1,7 @@
 import RV.Model.Diag
 import RV.Model.WHInt
 import RV.Model.TraceCom
+import RV.Model.WHJump
 import RV.Driver.Util
 /-
   drv_c04: runs RV/Model/Diag.lean on IEEE doubles.  Particles are `m x y z vx vy vz`.
@@ -11,6 +12,7 @@ import RV.Driver.Util
     lf     N Na tp ignore G soft dt nsteps parts*N  -> (x y z vx vy vz)*N   (LEAPFROG + BASIC)
     merge  G potential vcx vcy vcz  part part   -> m x y z vx vy vz dE
     tracecom N Nact dt rejected sx sy sz parts*N -> com_pos (3) com_vel (3) after one TRACE step (part2Com)
+    whjump kind N Nact dt parts*N   -> (x y z)*N of p_jh after reb_whfast_jump_step (kind dh | whds) / reb_whfast_com_step (kind com); m = particles[i].m
     whint  N G soft dt m0 a0x a0y a0z (m ax ay az x y z vx vy vz)*(N-1)  -> (vx vy vz)*(N-1)   (reb_whfast_interaction_step, Jacobi)
 -/
 open RV RV.Driver RV.Gravity RV.Diag RV.WHInt RV.TraceCom
@@ -66,6 +68,17 @@ def step (toks : List String) : String :=
     if t.size != 8 + 7*n then "bad-op" else
     let c := part2Com (fl t[3]!) (nat t[2]!) (nat t[4]! != 0) ⟨fl t[5]!, fl t[6]!, fl t[7]!⟩ (parts t 8 n)
     hxs [c.pos.x, c.pos.y, c.pos.z, c.vel.x, c.vel.y, c.vel.z]
+  | "whjump" :: _ =>
+    if t.size < 5 then "bad-op" else
+    let n := nat t[2]!
+    if t.size != 5 + 7*n then "bad-op" else
+    let ph := parts t 5 n
+    let dt := fl t[4]!
+    let out := match t[1]! with
+      | "dh" => RV.WHJump.jumpDH dt (nat t[3]!) n ph
+      | "whds" => RV.WHJump.jumpWHDS dt (nat t[3]!) n ph
+      | _ => RV.WHJump.comStep dt ph
+    " ".intercalate (out.toList.map fun p => hxs [p.x.x, p.x.y, p.x.z])
   | "whint" :: _ =>
     if t.size < 9 then "bad-op" else
     let n := nat t[1]!
